@@ -126,7 +126,8 @@ func ruleC18_2(c *Ctx, r *Rep) {
 		r.Fail("C18.2", "C18.2:decrement", fn.Pos(), "Check does not take a shot with atomic.AddInt64(&d.Count, -1)")
 		return
 	}
-	// the fault firing: dynamic call of the OnFault field
+	// the fault firing: dynamic call of the OnFault field — in the function that decrements, or (claim / fire split) in
+	// a sibling helper that Check calls exactly when the claiming helper handed back a description
 	var fire *ssa.Call
 	var match *ssa.Call
 	for _, b := range fn.Blocks {
@@ -143,13 +144,66 @@ func ruleC18_2(c *Ctx, r *Rep) {
 			}
 		}
 	}
-	if fire == nil || match == nil {
+	fireBlocks := map[*ssa.BasicBlock]bool{}
+	if fire != nil {
+		fireBlocks[fire.Block()] = true
+	} else if match != nil {
+		// the claiming helper: "fires" = returns the matched description to a caller that then runs the handler
+		okOrch := false
+		for _, site := range c.callersOf(fn) {
+			k := site.Parent()
+			sv := site.Value()
+			if sv == nil {
+				continue
+			}
+			for _, ci := range callsIn(k, false, func(cal *ssa.Function, _ ssa.CallInstruction) bool {
+				if !c.inModule(cal) || c.PkgOf(cal) != "faults" {
+					return false
+				}
+				for _, b := range cal.Blocks {
+					for _, in := range b.Instrs {
+						if dc, ok := in.(*ssa.Call); ok && dc.Call.StaticCallee() == nil && !dc.Call.IsInvoke() && sources(dc.Call.Value)["field:OnFault"] {
+							return true
+						}
+					}
+				}
+				return false
+			}) {
+				// the firing helper is called under `description != nil` (from the claim's result) and nothing else
+				conds := edgeConds(ci.Block())
+				good := len(conds) > 0
+				for _, cd := range conds {
+					nc := normCond(cd.V, cd.Pol)
+					bo, isB := nc.V.(*ssa.BinOp)
+					if !isB || !isNilConst(bo.Y) || !dependsOnValue(bo.X, sv) || (bo.Op == token.NEQ) != nc.Pol {
+						good = false
+					}
+				}
+				if good {
+					okOrch = true
+				}
+			}
+		}
+		if okOrch {
+			for _, ret := range returnsOf(fn) {
+				if len(ret.Results) > 0 && !isNilConst(retResult(ret, 0)) && dependsOnCall(retResult(ret, 0), match) {
+					fireBlocks[ret.Block()] = true
+				}
+			}
+		}
+	}
+	if len(fireBlocks) == 0 || match == nil {
 		r.Fail("C18.2", "C18.2:shape", fn.Pos(), "Check no longer has the match / OnFault structure the rule is anchored on")
 		return
 	}
 	for _, sg := range []int{-1, 0, 1} {
 		reach := reachUnderSign(dec.Block(), dec, sg, nil)
-		fires := reach[fire.Block()]
+		fires := false
+		for b := range fireBlocks {
+			if reach[b] {
+				fires = true
+			}
+		}
 		name := map[int]string{-1: "remaining<0", 0: "remaining=0", 1: "remaining>0"}[sg]
 		if sg < 0 {
 			// a racer that lost must not fire, and must look for another matching description before giving up
@@ -386,20 +440,40 @@ func ruleC18_5(c *Ctx, r *Rep) {
 			continue
 		}
 		ok := false
-		for _, b := range fn.Blocks {
-			for _, in := range b.Instrs {
-				bo, isB := in.(*ssa.BinOp)
-				if !isB || bo.Op != token.GTR {
+		// `count > 0` as a comparison, or as the verdict of a private predicate every return of which is that comparison
+		var positiveTest func(v ssa.Value, d int) bool
+		positiveTest = func(v ssa.Value, d int) bool {
+			if bo, isB := v.(*ssa.BinOp); isB && bo.Op == token.GTR {
+				if z, isZ := constInt(bo.Y); isZ && z == 0 && (atomicCountRead(bo.X, 0) || sources(bo.X)["field:Count"]) {
+					return true
+				}
+			}
+			if call, isC := v.(*ssa.Call); isC && d < 2 {
+				cal := call.Call.StaticCallee()
+				if cal != nil && c.inModule(cal) && len(cal.Blocks) > 0 {
+					rets := returnsOf(cal)
+					if len(rets) == 0 {
+						return false
+					}
+					for _, ret := range rets {
+						if len(ret.Results) != 1 || !positiveTest(retResult(ret, 0), d+1) {
+							return false
+						}
+					}
+					return true
+				}
+			}
+			return false
+		}
+		for _, f := range c.opFuncs(fn) {
+			for _, b := range f.Blocks {
+				if len(b.Instrs) == 0 {
 					continue
 				}
-				if z, isZ := constInt(bo.Y); isZ && z == 0 && (atomicCountRead(bo.X, 0) || sources(bo.X)["field:Count"]) {
-					// the comparison decides something
-					if refs := bo.Referrers(); refs != nil {
-						for _, u := range *refs {
-							if _, isIf := u.(*ssa.If); isIf {
-								ok = true
-							}
-						}
+				if iff, isIf := b.Instrs[len(b.Instrs)-1].(*ssa.If); isIf {
+					nc := normCond(iff.Cond, true)
+					if positiveTest(nc.V, 0) {
+						ok = true
 					}
 				}
 			}
@@ -414,6 +488,17 @@ func ruleC18_6(c *Ctx, r *Rep) {
 	if fn == nil {
 		return
 	}
+	// the map is taken from the pool here, or in a private helper that hands it out (acquire + clear)
+	fn = c.opFuncWhere(fn, func(f *ssa.Function) bool {
+		for _, b := range f.Blocks {
+			for _, in := range b.Instrs {
+				if ta, ok := in.(*ssa.TypeAssert); ok && sources(ta.X)["call:Get"] && isMapType(ta.AssertedType) {
+					return true
+				}
+			}
+		}
+		return false
+	})
 	// the map value: type assertion of paramsPool.Get()
 	var m ssa.Value
 	for _, b := range fn.Blocks {
@@ -559,10 +644,18 @@ func ruleC19_1(c *Ctx, r *Rep) {
 		return
 	}
 	var body *ssa.Function
-	for _, a := range send.AnonFuncs {
-		if len(callsIn(a, false, func(cal *ssa.Function, _ ssa.CallInstruction) bool { return cal.Name() == "Do" })) > 0 {
-			body = a
+	// the function that performs the HTTP round trip: a goroutine closure of Send, or a private method it starts
+	var findBody func(f *ssa.Function)
+	findBody = func(f *ssa.Function) {
+		if len(callsIn(f, false, func(cal *ssa.Function, _ ssa.CallInstruction) bool { return cal.Name() == "Do" && strings.HasSuffix(fnPkgPath(cal), "net/http") })) > 0 && f != send {
+			body = f
 		}
+		for _, a := range f.AnonFuncs {
+			findBody(a)
+		}
+	}
+	for _, f := range c.opFuncs(send) {
+		findBody(f)
 	}
 	if body == nil {
 		r.Fail("C19.1", "C19.1:shape", send.Pos(), "the pushing goroutine was not found")
@@ -758,7 +851,11 @@ func ruleC19_2(c *Ctx, r *Rep) {
 	})
 	// the message struct lives inside PushRequest.Message
 	pm := map[string][]*ssa.Store{}
-	for _, b := range send.Blocks {
+	var sendBlocks []*ssa.BasicBlock
+	for _, f := range c.opFuncs(send) {
+		sendBlocks = append(sendBlocks, f.Blocks...)
+	}
+	for _, b := range sendBlocks {
 		for _, in := range b.Instrs {
 			st, ok := in.(*ssa.Store)
 			if !ok {
